@@ -3,7 +3,7 @@ import re
 
 KEYWORDS = ("func", "extern", "interface", "type", "lemma", "requires", "ensures", "modifies", "pure",
             "reads", "inline", "invariant", "loop", "assume", "history", "frame", "effectfree", "ghost",
-            "lock", "atomic", "axiom", "nopanic", "acquires", "cancellable", "table", "action", "define",
+            "lock", "atomic", "axiom", "nopanic", "refuses", "acquires", "cancellable", "table", "action", "define",
             "fresh", "terminates", "opaque", "nonnil", "callsite", "coverage", "returns", "blocking", "noreturn", "after", "guarantee", "rely", "token",
             "invokes", "prompt", "promises", "refines", "locked", "rlocked", "establishes", "constructor")
 
